@@ -4,6 +4,7 @@ Oracle: per event, the production log (unique value per return/yield, unique exc
 written by generated handlers vs. the Value returned by fire() and the feedback events seen by a
 probe, evaluated at quiescence (DESIGN.md section 4, C04).
 """
+import copy
 import itertools
 import random
 
@@ -25,7 +26,7 @@ ASSUMPTIONS = [
 REQUIRED = ['falsy_result', 'handler_resumed_from_call', 'base_exception_raised', 'raise_plus_generator', 'generator_raises_at_step', 'multi_value_list', 'single_value_scalar', 'success_requested',
             'failure_requested', 'notify_requested', 'success_channels_override', 'child_event_from_handler', 'two_raises_one_event',
             'same_event_object_fired_again', 'event_object_fired_again_after_a_handler_raised', 'handler_returned_nested_value',
-            'nested_value_next_to_a_raising_handler']
+            'nested_value_next_to_a_raising_handler', 'handler_call_timed_out', 'handler_called_again_right_after_timeout']
 REQUIRED_OBLIGATIONS = ['VALUE', 'ERRORS_FLAG', 'EXCEPTION_EVENTS', 'FAILURE_EVENTS', 'SUCCESS_ONCE_IFF', 'SUCCESS_AFTER_HANDLERS',
                         'ALL_HANDLERS_RAN', 'LATER_EVENTS_RUN']
 WORKER_TIMEOUT = {'quick': 300, 'thorough': 1500}
@@ -62,6 +63,15 @@ SHAPES = {
     'XB': (False, [['raise', 'base']]),
     'GXB1': (True, [['yield', 'a'], ['raise', 'base']]),
 }
+# handlers whose call()/wait() TIMES OUT (the callee 'slow' outlasts it); only meaningful under run(), where timeouts count loop iterations:
+# the TimeoutError is caught and the handler goes on with plain yields, or at once with another call()/wait()
+TIMEOUT_SHAPES = {
+    'GTy': (True, [['call', {'name': 'slow'}, {'timeout': 1}], ['yield', 'a'], ['yield', 'b']]),
+    'GTC': (True, [['call', {'name': 'slow'}, {'timeout': 1}], ['call', {'name': 'k'}, {}], ['yield', 'a'], ['yield', 'b']]),
+    'GTW': (True, [['wait', {'name': 'slow'}, {'timeout': 2}], ['wait', {'name': 'k'}, {}], ['yield', None], ['yieldlit', 0]]),
+    'GTCT': (True, [['call', {'name': 'slow'}, {'timeout': 1}], ['call', {'name': 'slow'}, {'timeout': 1}], ['call', {'name': 'k'}, {'timeout': 9}], ['yield', 'a']]),
+    'GTX': (True, [['call', {'name': 'slow'}, {'timeout': 1}], ['call', {'name': 'k'}, {}], ['raise']]),
+}
 ALLF = {'success': True, 'failure': True, 'notify': True}
 
 
@@ -72,6 +82,8 @@ def run_case(case):
         hs = case['handlers'] = hs + [dict(K_HANDLER)]
     if not any(h['name'] == 'n' for h in hs):
         hs = case['handlers'] = hs + [dict(N_HANDLER)]
+    if case.get('under_run') and not any(h['name'] == 'slow' for h in hs):
+        hs = case['handlers'] = hs + [copy.deepcopy(SLOW_HANDLER)]
     w = World({'handlers': hs})
     problems = []
     subjects = []
@@ -79,7 +91,10 @@ def run_case(case):
         e, uid = w.fire(spec)
         subjects.append(uid)
     try:
-        ok = w.settle(max_ticks=400)
+        # under_run: the real run() in the checking thread (call/wait timeouts count its iterations); otherwise stepped with tick()
+        ok = w.run(max_iters=600) if case.get('under_run') else w.settle(max_ticks=400)
+        if case.get('under_run') and w.run_raised is not None:
+            raise w.run_raised
     except BaseException as ex:  # the loop itself raised
         import traceback
         return [('LOOP_RAISED', {'error': repr(ex), 'tb': traceback.format_exc(limit=6)})], {'marks': set(), 'counts': {}}, w
@@ -190,6 +205,10 @@ def evaluate(case, w, problems, canary, norm):
             marks.add('falsy_result')
         if any(h.get('shape') in ('GCn', 'GCv', 'GWn') for h in decl):
             marks.add('handler_resumed_from_call')
+        if any(h.get('shape') in TIMEOUT_SHAPES for h in decl):
+            marks.add('handler_call_timed_out')
+            if any(h.get('shape') in ('GTC', 'GTW', 'GTCT', 'GTX') for h in decl):
+                marks.add('handler_called_again_right_after_timeout')
         if any(h.get('shape') in ('XB', 'GXB1') for h in decl):
             marks.add('base_exception_raised')
         if any(h.get('shape') == 'X' for h in decl) and any(h.get('gen') and not h['shape'].startswith('GX') for h in decl):
@@ -214,6 +233,7 @@ def evaluate(case, w, problems, canary, norm):
 
 # ------------------------------------------------------------------------------------------------
 K_HANDLER = {'hid': 900, 'name': 'k', 'prio': 0, 'gen': False, 'body': [['ret', 'k']], 'shape': 'R'}
+SLOW_HANDLER = {'hid': 902, 'name': 'slow', 'prio': 0, 'gen': True, 'body': [['yield', None]] * 6 + [['yield', 'slow']], 'shape': 'G'}
 N_HANDLER = {'hid': 901, 'name': 'n', 'prio': 0, 'gen': False, 'body': [['ret', 'n']], 'shape': 'R'}
 
 
@@ -221,7 +241,7 @@ def mk_handlers(name, shapes, hid0=1, extra=None):
     hs = []
     n = len(shapes)
     for i, sh in enumerate(shapes):
-        gen, body = SHAPES[sh]
+        gen, body = SHAPES[sh] if sh in SHAPES else TIMEOUT_SHAPES[sh]
         body = [list(a) for a in body]
         if extra and i in extra:
             body = extra[i] + body
@@ -240,6 +260,10 @@ def corpus():
     for shapes in (['GX0'], ['GX1'], ['GX2', 'R'], ['X', 'G2vv'], ['GXB1', 'G1v'], ['G2vn', 'R'], ['R'], ['GCn', 'GX1'], ['X']):
         cs.append({'handlers': mk_handlers('e', shapes), 'fires': [{'name': 'e', 'flags': ALLF}], 'refire': 2})
         cs.append({'handlers': mk_handlers('e', shapes), 'fires': [{'name': 'e', 'flags': {'success': True}}, {'name': 'e', 'flags': ALLF}], 'refire': 1})
+    # timeouts that expire inside a handler (under run()): caught, then plain yields / another call at once / a raise; next to other handlers
+    for shapes in (['GTy'], ['GTC'], ['GTW'], ['GTCT'], ['GTX'], ['GTC', 'R'], ['G2vv', 'GTC'], ['GTC', 'GX1'], ['GTW', 'GTC'], ['X', 'GTC'], ['GTC', 'RV']):
+        for fl in (ALLF, {'success': True}):
+            cs.append({'handlers': mk_handlers('e', shapes), 'fires': [{'name': 'e', 'flags': fl}], 'under_run': True})
     # success_channels override
     cs.append({'handlers': mk_handlers('e', ['R', 'G1v']), 'fires': [{'name': 'e', 'flags': ALLF, 'success_channels': ['other']}]})
     cs.append({'handlers': mk_handlers('e', ['X', 'G1v']), 'fires': [{'name': 'e', 'flags': ALLF, 'success_channels': ['other']}]})
@@ -284,6 +308,14 @@ def gen_case(rng):
     case = {'handlers': handlers, 'fires': fires}
     if rng.random() < 0.3:
         case['refire'] = rng.choice([1, 1, 2])
+    elif rng.random() < 0.2:
+        # under run(), some handlers replaced by ones whose call()/wait() times out
+        case['under_run'] = True
+        for h in handlers:
+            if rng.random() < 0.3:
+                sh = rng.choice(sorted(TIMEOUT_SHAPES))
+                gen, body = TIMEOUT_SHAPES[sh]
+                h.update(gen=gen, body=[list(a) for a in body], shape=sh)
     return case
 
 
